@@ -555,7 +555,7 @@ lemma("vsum_real", [a], z3.Implies(isreal(a), vsum_im(a) == 0), [vsum_im(a)], "s
 lemma("isreal_dg", [a], z3.Implies(isreal(a), isreal(dg(a))), [dg(a)], "diagonal of a real matrix is real")
 lemma("trc_real", [a], z3.Implies(isreal(a), trc_im(a) == 0), [trc_im(a)], "trace of a real matrix is real")
 
-_GROUP[0] = 'inv'
+_GROUP[0] = 'pinv'        # opt-in group (C16): kept out of the default cone so that unrelated inverse queries are unaffected
 # ---- Moore-Penrose pseudo inverse (C16).  psolve(M) is the exact-arithmetic meaning of "CG started from 0 on the PSD matrix M"
 psolve = F("psolve", Mat, Mat)
 fullrow = F("fullrow", Mat, B)
@@ -574,6 +574,7 @@ lemma("invok_smul_intro", [x, y, a], z3.Implies(z3.And(invok(a), z3.Or(x != 0, y
 lemma("pinv_eye", [n], pinvm(eye(n)) == eye(n), [pinvm(eye(n))], "I satisfies the Penrose equations for I")
 
 DEFAULT_GROUPS = ("dims", "ring", "tr", "inv", "det", "pred", "mixed", "fn", "diag")
+OPT_IN = set()            # extra groups a property module switches on for its own run (e.g. {"pinv"})
 
 
 def all_axioms(groups=None):
@@ -585,7 +586,7 @@ def relevant_axioms(formulas, groups=None):
     """Cone of influence: a lemma can only ever be instantiated if all function symbols of one of its patterns occur in
     the query or in the body of a lemma that can itself fire.  Lemmas outside this closure are dropped (sound: fewer
     axioms), which keeps unrelated theories (matrix functions, determinants ...) from feeding E-matching."""
-    groups = set(groups or DEFAULT_GROUPS)
+    groups = set(groups or DEFAULT_GROUPS) | OPT_IN
     syms = set()
     for fmla in formulas:
         _syms_of(fmla, syms)
@@ -706,11 +707,16 @@ def prove(hyps, goal, timeout_ms=8000, want_smt=False, groups=None, z3_ms=1500):
     s.add(*ax)
     s.add(*hyps)
     s.add(z3.Not(goal))
-    r = hard_check(s, z3_ms)
+    if ESCALATE[0]:
+        r = hard_check(s, z3_ms)
+    else:
+        # obligations tied to an open known finding are expected to fail: in-process z3 can run far past its resource limit on
+        # satisfiable queries, so they go straight to the CLI solvers, which are killed at their time limit
+        r = z3.unknown
     STATS["z3"] += 1
     STATS["z3_secs"] += time.time() - t0
     out = dict(status=str(r), backend="z3-" + z3.get_version_string(), secs=time.time() - t0,
-               reason="" if r != z3.unknown else _reason(s))
+               reason="" if r != z3.unknown else (_reason(s) if ESCALATE[0] else "skipped (known-finding obligation)"))
     if want_smt:
         out["smt"] = s.to_smt2()
     if r == z3.unsat:
